@@ -2,7 +2,7 @@
    Only statements; every proof is [exact lemma].  Model: OSU.Model.Estimators. *)
 From Coq Require Import Reals List Arith Lra.
 From OSU.Model Require Import Estimators.
-From OSU.Proofs Require Import Estimators.
+From OSU.Proofs Require Import Estimators Estimators5.
 Import ListNotations.
 Open Scope R_scope.
 
@@ -64,6 +64,13 @@ Proof. exact mem2_estimate_valid. Qed.
 Theorem incr_newton_uniform : forall n, (3 <= n)%nat ->
   incr_newton (to_rad (linspace360 n)) = map (fun _ => 2 * PI / INR n) (seq 0 n).
 Proof. exact incr_newton_uniform. Qed.
+
+(* the statement of the property on the grid of as_frequency_direction_spectrum: positive, sum * 360/N = 1 *)
+Theorem mem2_estimate_valid_linspace : forall v n a1 b1 a2 b2 D,
+  v <> VMem -> (3 <= n)%nat ->
+  estimate_entry v (linspace360 n) (Some a1) (Some b1) (Some a2) (Some b2) = EDist D ->
+  exists xs, D = map Some xs /\ Forall (fun x => 0 < x) xs /\ sumR xs * (360 / INR n) = 1 /\ length xs = n.
+Proof. exact mem2_estimate_valid_linspace. Qed.
 
 Theorem estimate_nan_moments : forall v dirs a1 b1 a2 b2,
   all_some4 a1 b1 a2 b2 = None ->
